@@ -72,7 +72,7 @@ func RunC05Hist(rep *report.Report, tier string, dl time.Time) {
 		n, depth = 3, 8 // (as deep as the budget allows: the search reports the depth it completed)
 		ids = append(append([]ID{}, Lattice...), Boundary...)
 	}
-	ls := MakeLetters(n, ids, []stamp{stOwn}, nil, []string{"ADD nh1"}, nil)
+	ls := append(MakeLetters(n, ids, []stamp{stOwn}, nil, []string{"ADD nh1"}, nil), FlushLetters(ids)...)
 	o := &Options{Letters: ls, Sessions: n, Checks: Checks{Election: true, Primary: true}}
 	search(rep, fmt.Sprintf("announcement-histories/%d-sessions", n), o, depth, dl)
 	// all ordered pairs (and triples in thorough) of ids over the word lattice incl. boundaries, announced by
